@@ -115,6 +115,19 @@ func paramNamed(fn *ssa.Function, name string) *ssa.Parameter {
 			return p
 		}
 	}
+	if p := paramByRole(fn, name); p != nil {
+		// the polynomial forms name a parameter by its role, not by what the
+		// source happens to call it
+		paramRoleName[p] = name
+		return p
+	}
+	return nil
+}
+
+// paramRoleName: parameters found through their role under another name.
+var paramRoleName = map[*ssa.Parameter]string{}
+
+func paramByRole(fn *ssa.Function, name string) *ssa.Parameter {
 	spec, ok := paramRoles[name]
 	if !ok {
 		return nil
